@@ -484,14 +484,14 @@ Proof. intros; unfold live; apply memN_false. Qed.
 Lemma inv_do_current_add : forall o d n t, Inv o d -> ~ In n (names (o_holders o)) ->
   Inv (add_holder o n) (do_current d n t).
 Proof.
-  intros o d n t I Hn. unfold do_current. destruct ((cur_default d t =? 0) || per_handle (cur_default d t)); [apply inv_add_unlogged; auto|].
+  intros o d n t I Hn. unfold do_current. destruct (cur_default d t =? 0); [apply inv_add_unlogged; auto|].
   destruct (stack_of (d_log d) (cur_default d t) t) as [|i rest] eqn:Es; [apply inv_add_unlogged; auto|].
   apply inv_add_clone; auto. eapply current_live; eassumption.
 Qed.
 Lemma inv_do_current_upd : forall o d n t, Inv o d -> free o n = true -> vlook (d_vals d) n = SNone ->
   Inv o (do_current d n t).
 Proof.
-  intros o d n t I Hf Hv. unfold do_current. destruct ((cur_default d t =? 0) || per_handle (cur_default d t)); [apply inv_upd_unlogged; auto|].
+  intros o d n t I Hf Hv. unfold do_current. destruct (cur_default d t =? 0); [apply inv_upd_unlogged; auto|].
   destruct (stack_of (d_log d) (cur_default d t) t) as [|i rest] eqn:Es; [apply inv_upd_unlogged; auto|].
   apply inv_upd_clone; auto. eapply current_live; eassumption.
 Qed.
@@ -592,7 +592,7 @@ Proof.
   assert (H2 : forall x n h, Inv o (set_hid (hpush d' x) n h)).
   { intros. unfold set_hid. apply inv_with_h; [apply H1 | cbn; lia]. }
   assert (H3 : forall n h, Inv o (set_hid d' n h)) by (intros; apply H0).
-  destruct m; cbn [mh]; auto;
+  destruct m; cbn [mh]; unfold mh_current; auto;
     repeat match goal with
            | |- Inv _ (match ?x with _ => _ end) => destruct x
            | |- Inv _ (if ?x then _ else _) => destruct x
@@ -826,7 +826,7 @@ Qed.
 
 Lemma mh_log : forall m d d', d_log (mh m d d') = d_log d'.
 Proof.
-  intros m d d'. destruct m; cbn [mh]; try reflexivity;
+  intros m d d'. destruct m; cbn [mh]; unfold mh_current; try reflexivity;
     repeat match goal with
            | |- d_log (match ?x with _ => _ end) = _ => destruct x
            | |- d_log (if ?x then _ else _) = _ => destruct x
@@ -834,7 +834,7 @@ Proof.
 Qed.
 Lemma mh_vals : forall m d d', d_vals (mh m d d') = d_vals d'.
 Proof.
-  intros m d d'. destruct m; cbn [mh]; try reflexivity;
+  intros m d d'. destruct m; cbn [mh]; unfold mh_current; try reflexivity;
     repeat match goal with
            | |- d_vals (match ?x with _ => _ end) = _ => destruct x
            | |- d_vals (if ?x then _ else _) = _ => destruct x
@@ -844,7 +844,7 @@ Lemma mh_val_of : forall m d d' r, val_of (mh m d d') r = val_of d' r.
 Proof. intros; unfold val_of; rewrite mh_vals; reflexivity. Qed.
 Lemma mh_defaults : forall m d d', d_defaults (mh m d d') = d_defaults d'.
 Proof.
-  intros m d d'. destruct m; cbn [mh]; try reflexivity;
+  intros m d d'. destruct m; cbn [mh]; unfold mh_current; try reflexivity;
     repeat match goal with
            | |- d_defaults (match ?x with _ => _ end) = _ => destruct x
            | |- d_defaults (if ?x then _ else _) = _ => destruct x
@@ -852,7 +852,7 @@ Proof.
 Qed.
 Lemma mh_disp : forall m d d', d_disp (mh m d d') = d_disp d'.
 Proof.
-  intros m d d'. destruct m; cbn [mh]; try reflexivity;
+  intros m d d'. destruct m; cbn [mh]; unfold mh_current; try reflexivity;
     repeat match goal with
            | |- d_disp (match ?x with _ => _ end) = _ => destruct x
            | |- d_disp (if ?x then _ else _) = _ => destruct x
@@ -897,6 +897,26 @@ Ltac qfin H :=
 Lemma val_of_set_same' : forall d n v, val_of (set_val d n v) n = v.
 Proof. intros. unfold val_of, set_val. simpl. rewrite N.eqb_refl. reflexivity. Qed.
 
+Lemma drop_mcond : forall o t n d ms, drop_micros o t n = Some ms -> unlogged (val_of d n) = true -> Forall (mcond d) ms.
+Proof.
+  intros o t n d ms H Hu. unfold drop_micros in H.
+  destruct (kind_of o n) as [[| |b]|]; try discriminate; destruct (ents_on o n) as [|e [|e' l]] eqn:Ee; try discriminate.
+  - inversion H; subst. repeat constructor; cbn [mquiet_kind msubject]; auto.
+  - destruct (e_kind e); try discriminate. destruct (e_tid e =? t); [|discriminate]. inversion H; subst.
+    apply ents_on_holder in Ee. repeat constructor; cbn [mquiet_kind msubject]; auto; rewrite ?Ee; auto.
+  - inversion H; subst. repeat constructor; cbn [mquiet_kind msubject e_holder]; auto.
+  - inversion H; subst. repeat constructor; cbn [mquiet_kind msubject e_holder]; auto.
+Qed.
+Lemma drops_mcond : forall ls o t d ms o', drops o t ls = Some (ms, o') ->
+  forallb (fun n => unlogged (val_of d n)) ls = true -> Forall (mcond d) ms.
+Proof.
+  induction ls as [|n ls]; intros o t d ms o' H Hl; simpl in H; [inversion H; constructor|].
+  simpl in Hl. apply andb_true_iff in Hl. destruct Hl as [Hn Hl].
+  destruct (drop_micros o t n) as [ms1|] eqn:E1; [|discriminate]. destruct (oexec ms1 o) as [o1|]; [|discriminate].
+  destruct (drops o1 t ls) as [[ms2 o2]|] eqn:E2; [|discriminate]. inversion H; subst. apply Forall_app. split.
+  - eapply drop_mcond; eassumption.
+  - eapply IHls; eassumption.
+Qed.
 Lemma val_of_set_other : forall d n v m, m <> n -> val_of (set_val d n v) m = val_of d m.
 Proof. intros. unfold val_of, set_val. simpl. destruct (n =? m) eqn:E; [apply N.eqb_eq in E; congruence | reflexivity]. Qed.
 Lemma md_clone_unlogged : forall d r n t, unlogged (val_of d r) = true ->
@@ -921,7 +941,7 @@ Theorem disabled_silent_step : forall s x s', step s x = Some s' -> on_unlogged 
   quiet (d_log (snd s)) (d_log (snd s')).
 Proof.
   intros [o d] [t a] s' H Hu. unfold step in H. cbn [fst snd] in *. unfold on_unlogged in Hu. cbn [fst snd] in Hu.
-  destruct a; try discriminate Hu; cbn [compile] in H; try (qfin H; fail).
+  destruct a; try discriminate Hu; cbn [compile] in H; unfold drop_micros in H; try (qfin H; fail).
   - (* Clone *)
     destruct (readable o r && negb (live o n)); [|discriminate]. simpl in H.
     destruct (live o r && negb (live o n)); [|discriminate]. inversion H; subst; clear H. cbn [snd md0].
@@ -962,6 +982,19 @@ Proof.
     destruct (md_swap (md (MCloneTo b n t) d) a n) as [S1 [S2 _]].
     rewrite md_release_unlogged; [rewrite S1, H1; apply quiet_refl|].
     rewrite S2, H3 by exact Hf0. exact Hua.
+  - (* ScopeEndL *)
+    apply andb_true_iff in Hu. destruct Hu as [Hf Hl].
+    destruct (drops o t ls) as [[ms o']|] eqn:Ed; [|discriminate].
+    destruct (top_frame o' t) as [e|]; [|discriminate]. destruct (e_kind e); try discriminate.
+    apply exec_quiet in H; auto. cbn [snd]. apply Forall_app. split; [eapply drops_mcond; eassumption|].
+    constructor; [|constructor]. unfold mcond; cbn [mquiet_kind msubject]; repeat split; auto.
+  - (* PollEndL *)
+    apply andb_true_iff in Hu. destruct Hu as [Hf Hl].
+    destruct (drops o t ls) as [[ms o']|] eqn:Ed; [|discriminate].
+    destruct (top_frame o' t) as [e|]; [|discriminate]. destruct (e_kind e); try discriminate.
+    destruct (kind_of o' (e_holder e)) as [[| |[|]]|]; try discriminate;
+      (apply exec_quiet in H; auto; cbn [snd]; apply Forall_app; split; [eapply drops_mcond; eassumption|];
+       repeat (constructor; try (unfold mcond; cbn [mquiet_kind msubject]; repeat split; auto))).
 Qed.
 
 Lemma find_some_prop : forall {A} (f : A -> bool) l x, find f l = Some x -> f x = true.
@@ -976,7 +1009,7 @@ Theorem instrumented_step : forall s t f s', is_anyfut (fst s) f = true ->
   (step s (t, IntoInner f) = Some s' ->
      d_log (snd s') = EMark t (MInnerDrop f) :: close_entries v t ++ d_log (snd s)).
 Proof.
-  intros [o d] t f s' Hf v. subst v. cbn [fst snd] in *. unfold step. cbn [fst snd compile].
+  intros [o d] t f s' Hf v. subst v. cbn [fst snd] in *. unfold step. cbn [fst snd compile]. unfold drop_micros.
   unfold is_anyfut in Hf. destruct (kind_of o f) as [[| |b]|] eqn:Ek; try discriminate Hf; try destruct b;
   unfold is_anyfut; rewrite ?Ek; unfold val_of;
   (destruct (lookup (d_vals d) f) as [[| |i c]|] eqn:El;
